@@ -14,7 +14,9 @@
 //! This implementation uses no implicit timezone.
 use std::{cmp::Ordering, fmt::Display, str::FromStr, sync::LazyLock};
 
-use chrono::{DateTime, Datelike, Days, FixedOffset, NaiveDate, NaiveDateTime, Timelike};
+use chrono::{
+    DateTime, Datelike, Days, FixedOffset, NaiveDate, NaiveDateTime, TimeDelta, Timelike,
+};
 use regex::Regex;
 
 #[derive(Clone, Copy, Debug, PartialEq)]
@@ -341,21 +343,17 @@ impl Timelike for XsdDateTime {
 
 /// Implements <https://www.w3.org/TR/xmlschema-2/#dateTime-order>
 fn heterogeneous_cmp(d1: &DateTime<FixedOffset>, d2: &NaiveDateTime) -> Option<Ordering> {
-    if d1 < &naive_to_fixed(d2, 14) {
+    // The comparison is made in UTC: `d2` at +14:00 is `d2 - 14h`, `d2` at -14:00 is `d2 + 14h`.
+    // NB: near the limits of the range supported by chrono, these bounds may not be representable;
+    // in that case, no representable instant can be beyond them.
+    let utc = d1.naive_utc();
+    let span = TimeDelta::hours(14);
+    if d2.checked_sub_signed(span).is_some_and(|lo| utc < lo) {
         Some(Ordering::Less)
-    } else if d1 > &naive_to_fixed(d2, -14) {
+    } else if d2.checked_add_signed(span).is_some_and(|hi| utc > hi) {
         Some(Ordering::Greater)
     } else {
         None
-    }
-}
-
-fn naive_to_fixed(d: &NaiveDateTime, offset: i8) -> DateTime<FixedOffset> {
-    debug_assert!((-14..=14).contains(&offset));
-    let fixed_offset = FixedOffset::east_opt(i32::from(offset) * 3600).unwrap();
-    match d.and_local_timezone(fixed_offset) {
-        chrono::offset::LocalResult::Single(r) => r,
-        _ => unreachable!(), // FixedOffset has no fold or gap, so there is always a single result
     }
 }
 
